@@ -173,6 +173,62 @@ def _trace_of(obj, events):
     return {"meta": obj["meta"], "header": obj["header"], "rows": [[_tok_for_tlc(t) for t in row] for row in obj["rows"]], "events": evs}
 
 
+def noid_variant(obj):
+    """the same file WITHOUT its location / id column: the sites are then told apart by latitude, longitude and elevation alone.  Here they
+    share latitude and elevation and lie a millionth of a degree apart in longitude (after seed C09-h): still different sites, each
+    with its own values.  File and expectation are rewritten together; the ids the reader invents are not compared."""
+    import copy
+    names = ["".join(h) for h in obj["header"]]
+    ki = [k for k, h in enumerate(names) if h in ("location", "id")]
+    if len(ki) != 1 or "lat" not in names or "lon" not in names:
+        return None
+    ki = ki[0]
+    o = copy.deepcopy(obj)
+    klat, klon = names.index("lat"), names.index("lon")
+    kel = [k for k, h in enumerate(names) if h in ("altitude", "elev")]
+    lon_of = lambda i: "%.6f" % (10.72 + 1e-6 * float(i))
+    rows = []
+    for row in o["rows"]:
+        t = row[ki]
+        i = num(t["num"]) if isinstance(t["num"], list) else t["num"]
+        row[klat] = {"lit": "40"}
+        row[klon] = {"lit": lon_of(i)}
+        for k in kel:
+            row[k] = {"lit": "100"}
+        rows.append([c for k, c in enumerate(row) if k != ki])
+    o["rows"] = rows
+    o["header"] = [h for k, h in enumerate(o["header"]) if k != ki]
+    for l in o["input"]["locations"]:
+        l["lat"], l["lon"] = 40, float(lon_of(l["id"]))
+        if kel:
+            l["elev"] = 100
+    o["noid"] = True
+    return o
+
+
+def _rekey_noid(exp, got):
+    """an id-less file: the reader numbers the sites itself; they are matched to the expected ones by their coordinates"""
+    want = {(round(num(l["lat"]), 7), round(num(l["lon"]), 7), round(num(l["elev"]), 7)): float(l["id"]) for l in exp["locations"]}
+    m = {}
+    for gid, c in got["locations"].items():
+        key = tuple(round(x, 7) for x in c)
+        if key not in want or want[key] in m.values():
+            return None
+        m[gid] = want[key]
+    out = dict(got)
+    out["locations"] = {m[g]: c for g, c in got["locations"].items()}
+
+    def rk(d):
+        if d is None:
+            return None
+        if d and not isinstance(next(iter(d)), tuple):
+            return {k: rk(v) for k, v in d.items()}
+        return {(t, l, m[s]): v for (t, l, s), v in d.items()}
+    for name in ("obs", "fcst", "pit", "cdf", "x", "ens", "other"):
+        out[name] = rk(got[name])
+    return out
+
+
 def _check_chunk(jobs):
     import json
     import verif.input
@@ -186,8 +242,21 @@ def _check_chunk(jobs):
         path = os.path.join(wd, "file.txt")
         with open(path, "w") as f:
             f.write(text)
-        rep = {"kind": "textfile", "file": text, "expected": obj["input"], "gen": obj.get("gen")}
+        rep = {"kind": "textfile", "file": text, "expected": obj["input"], "gen": obj.get("gen"), "noid": bool(obj.get("noid"))}
         try:
+            if obj.get("noid"):
+                with quiet():
+                    inp = verif.input.Text(path)
+                    got = project(inp)
+                n += 1
+                rk = _rekey_noid(obj["input"], got)
+                if rk is None:
+                    divs.append(("text:locations:no-id-column", "a file without a location column, sites a millionth of a degree apart: expected the sites %r, "
+                                 "observed %r" % ([(l["lat"], l["lon"], l["elev"]) for l in obj["input"]["locations"]], sorted(got["locations"].values())), rep))
+                    continue
+                for site, msg in compare(obj["input"], rk):
+                    divs.append((site + ":no-id-column", msg, rep))
+                continue
             open(hook, "w").close()
             os.environ["VERIF_TLA_TRACE"] = hook
             try:
@@ -249,6 +318,12 @@ def run(ctx):
     for o in res.emitted:
         jobs.append((o, " ", None))
         jobs.append((o, rng.choice(["\t", "   ", " \t "]), rng.choice([None, "# a comment line", "#comment without blank", "#"])))
+    # the same files without their location column (sites told apart by coordinates that differ by a millionth of a degree)
+    noid = [v for v in (noid_variant(o) for o in res.emitted) if v is not None]
+    if ctx.tier == "quick":
+        noid = rng.sample(noid, min(len(noid), 80))
+    jobs += [(o, " ", None) for o in noid]
+    ctx.extra["files_without_location_column"] = len(noid)
     chunks = [jobs[i:i + 20] for i in range(0, len(jobs), 20)]
     recorded = []
     for n, divs, traces in par.pmap(_check_chunk, chunks, chunk=1):
@@ -274,6 +349,12 @@ def replay(ctx, rep):
         f.write(rep["file"])
     with quiet():
         got = project(verif.input.Text(path))
+    if rep.get("noid"):
+        got = _rekey_noid(rep["expected"], got)
+        if got is None:
+            ctx.diverge(rep.get("site", "text:locations:no-id-column"), rep, detail="the sites read do not match the expected ones")
+            print("replay: 1 divergence(s)")
+            return 1
     bad = compare(rep["expected"], got)
     for site, msg in bad:
         ctx.diverge(site, rep, detail=msg)
